@@ -89,6 +89,22 @@ CLAIMS.update({
             'Correspondence on writer files of 1..9 blocks, boundary invalid inputs and arbitrary samples.',
             TB + 'reason texts are not compared, only that a reason is present', 'Coq proof (shape of the first 24 bytes, lay/trailer positions, generated digit tables) + differential correspondence', '6/C17'),
 })
+CLAIMS.update({
+    'C19': ('Theorems for the conversion tools\' model (generic block size, any configured maximum record length): parameter files of ARBITRARY records convert record by record '
+            '(same count and order, each decoding under B to what the original decodes to under A) and converting back reproduces the original file byte for byte; IPM files written by '
+            'the library from well-formed messages (any well-formed configuration without PAN processors, any pair of compatible total codec tables, any of the four format combinations) '
+            'convert to a file that reads under B to exactly the records the input reads to under A (ICC values are the same VBytes) and convert back to the original bytes. '
+            'latin_1/cp500/cp037 pairwise compatible and the packaged configuration convertible: generated obligations re-proved each run. Correspondence + direct oracle through the '
+            'four tool functions on BytesIO and the command entry points (mci_ipm_encode, mideu convert, mci_ipm_param_encode, paramconv with/without -o) on real temporary files.',
+            TB + 'argparse wiring, file opening and printing are exercised by the run only; DE43_* regex entries outside the model',
+            'Coq proof (composition of C01/C02 re-rendering lemmas, C03-C05 framing, codec bijection tables by vm_compute) + differential correspondence through functions and CLI entry points', '6/C19'),
+    'C20': ('Theorem for every canonical CSV table (boolean domain canonical_tableb: distinct columns incl. MTI, data elements 2..127 and PDS sub-elements, plain decimal numerals, ISO date-times '
+            'in the window, exact-width fixed text, 1..99/999 variable text, empty = absent, fits a record), any well-formed configuration without PAN processors, any codec, blocked or not: '
+            'csv_to_ipm succeeds and ipm_to_rows of that file gives back every row cell for cell; value lemmas str(int(s)) = s and str(parse_iso(s)) = s. Correspondence + row oracle through '
+            'mci_csv_to_ipm / mci_ipm_to_csv as functions and command entry points on real files.',
+            TB + 'CPython csv module is an oracle: read(write(rows)) = rows for cells without CR/LF (assumed, exercised by the run); dateutil only on canonical ISO strings',
+            'Coq proof (row -> native message is wf_msgb, C06 file round trip, numeral/date printing inverses) + differential correspondence through functions and CLI entry points', '6/C20'),
+})
 PENDING = 'not yet claimed: model and theorems for this property are still being built (DESIGN.md section 11); no check registered yet'
 
 
